@@ -26,7 +26,6 @@ import (
 	pxds "istio.io/istio/pilot/pkg/xds"
 	"istio.io/istio/pkg/config/schema/kind"
 	"istio.io/istio/pkg/util/sets"
-	"istio.io/istio/pkg/xds"
 	"verifharness/internal/wire"
 )
 
@@ -485,7 +484,7 @@ func genProc(stream string, seed uint64, n int, outp string) {
 		last := map[string][]string{}
 		for i := 0; i < length; i++ {
 			t := wire.Pick(r, types)
-			wild := xds.IsWildcardTypeURL(typeURL[t])
+			wild := !namedType(t)
 			switch k := r.Intn(20); {
 			case k < 11 && !delta:
 				if r.Chance(1, 4) && last[t] != nil {
@@ -532,41 +531,14 @@ func genProc(stream string, seed uint64, n int, outp string) {
 
 // ---------------------------------------------------------------- property oracle (proc, dproc)
 //
-// Judges the property statement on the real code without the Lean model.  Which clause applies to a
-// request is decided from the HISTORY of the exchange as a client sees it (which requests were sent, which
-// responses reached the client), never from the server's own bookkeeping; the watch table is then compared
-// with what that history implies.
-
-type hist struct {
-	exists    bool
-	wild      bool        // delta: the subscription is a wildcard one (fixed by the first request)
-	names     sets.String // what the client has asked for
-	delivered string      // nonce of the last response that reached the client since the watch was created
-	warm      bool        // a CDS watch was created while this (EDS) watch existed, and no request has consumed it
-}
+// Judges the property statement on the real code without the Lean model: the clause that applies to a
+// request comes from the history (hist.go); here it is compared with what the real code SENT and what it
+// asked the generators for.
 
 type procOracle struct {
-	pr      *procRunner
-	h       map[string]*hist
-	verdict string
-	idx     int
+	histOracle
+	pr *procRunner
 }
-
-func (o *procOracle) fail(clause, detail string) {
-	if o.verdict == "" {
-		o.verdict = fmt.Sprintf("FAIL %s op=%d %s", clause, o.idx, wire.Enc(detail))
-	}
-}
-
-func (o *procOracle) get(t string) *hist {
-	if o.h[t] == nil {
-		o.h[t] = &hist{names: sets.New[string]()}
-	}
-	return o.h[t]
-}
-
-func namedType(t string) bool { return !xds.IsWildcardTypeURL(typeURL[t]) }
-func managedType(t string) bool { return t == "WDS" || t == "WL" }
 
 // scriptOf is the generator answer the harness itself configured (an input of the case).
 func (o *procOracle) scriptOf(t string) script {
@@ -593,15 +565,13 @@ func sameNames(a []string, b sets.String) bool { return sets.New(a...).Equals(b)
 // stream exactly for the calls whose generator had something, until a send fails.
 func (o *procOracle) checkAnswer(clause string, want []pcall, line string) {
 	p := o.pr.p
-	if len(p.calls) != len(want) {
+	bad := len(p.calls) != len(want)
+	for i := 0; !bad && i < len(want); i++ {
+		bad = p.calls[i].short != want[i].short || !sameNames(p.calls[i].names, sets.New(want[i].names...))
+	}
+	if bad {
 		o.fail(clause, fmt.Sprintf("generator calls %s, want %s :: %s", showCalls(p.calls), showCalls(want), line))
 		return
-	}
-	for i := range want {
-		if p.calls[i].short != want[i].short || !sameNames(p.calls[i].names, sets.New(want[i].names...)) {
-			o.fail(clause, fmt.Sprintf("generator calls %s, want %s :: %s", showCalls(p.calls), showCalls(want), line))
-			return
-		}
 	}
 	var wantSent []string
 	for _, c := range want {
@@ -651,115 +621,45 @@ func (o *procOracle) checkSilent(clause, line string) {
 	}
 }
 
-// noteDelivered records the responses that reached the client.
-func (o *procOracle) noteDelivered() {
-	for _, w := range o.pr.p.got {
-		o.get(w.short).delivered = w.nonce
+// after records the responses that reached the client and compares the watch table with the history.
+func (o *procOracle) after(line string) {
+	p := o.pr.p
+	for _, w := range p.got {
+		if p.delta {
+			o.sendDelta(w.short, w.nonce, nil, false)
+		} else {
+			o.sendSotw(w.short, w.nonce)
+		}
 	}
+	o.checkTable(p.proxy, p.delta, true, p.got, line)
 }
 
-// checkTable compares the server's watch table with what the history implies.
-func (o *procOracle) checkTable(line string) {
-	p := o.pr.p
-	for _, t := range typeOrder {
-		w := p.proxy.WatchedResources[typeURL[t]]
-		h := o.get(t)
-		if (w != nil) != h.exists {
-			o.fail("watch-exists-iff-subscribed", fmt.Sprintf("%s watch=%v history=%v :: %s", t, w != nil, h.exists, line))
-			continue
-		}
-		if w == nil {
-			continue
-		}
-		if w.NonceSent != h.delivered {
-			o.fail("nonce-recorded-only-after-successful-send",
-				fmt.Sprintf("%s NonceSent=%q but the last response that reached the client is %q :: %s", t, w.NonceSent, h.delivered, line))
-		}
-		if w.AlwaysRespond != h.warm {
-			o.fail("warming-mark-iff-cds-watch-created-while-eds-watched",
-				fmt.Sprintf("%s AlwaysRespond=%v history=%v :: %s", t, w.AlwaysRespond, h.warm, line))
-		}
-		if p.delta && (managedType(t) && h.wild) {
-			continue
-		}
-		if p.delta && !namedType(t) && !managedType(t) {
-			// wildcard types: the record follows what was delivered; a resource the client was told to remove is
-			// no longer on record
-			for _, r := range p.got {
-				if r.short != t {
-					continue
-				}
-				regenerated := sets.New[string]()
-				for _, x := range r.res {
-					regenerated.Insert(x.name)
-				}
-				for _, n := range r.removed {
-					if w.ResourceNames.Contains(n) && !regenerated.Contains(n) {
-						o.fail("removed-resource-stays-on-record", fmt.Sprintf("%s %s :: %s", t, n, line))
-					}
-				}
-			}
-			h.names = w.ResourceNames.Copy()
-			if h.names == nil {
-				h.names = sets.New[string]()
-			}
-			continue
-		}
-		if !w.ResourceNames.Equals(h.names) && !(len(w.ResourceNames) == 0 && len(h.names) == 0) {
-			o.fail("record-equals-what-the-client-asked-for",
-				fmt.Sprintf("%s record=%v asked=%v :: %s", t, sets.SortedList(w.ResourceNames), sets.SortedList(h.names), line))
-		}
+func errMsgOf(tok string) *string {
+	if tok == "-" {
+		return nil
 	}
+	m := wire.Dec(tok[2:])
+	return &m
 }
 
 func (o *procOracle) sotwReq(f []string, line string) {
-	p := o.pr.p
 	t := f[1]
 	names := wire.DecList(f[2])
-	nonce := p.resolve(t, f[3]) // what the client sends: resolved before the op from the client's own view
-	isErr := f[4] != "-"
-	h := o.get(t)
+	nonce := o.pr.p.resolve(t, f[3]) // what the client sends: resolved from the client's own view, before the op
+	e := o.expectSotw(t, names, nonce, errMsgOf(f[4]))
 	if o.pr.apply(f) == "crash" {
 		o.fail("never-crashes", line)
 		return
 	}
-	p = o.pr.p
-	full := []pcall{{t, names}}
 	switch {
-	case isErr:
-		o.checkSilent("nack-silent", line)
-	case len(names) == 0 && namedType(t):
-		o.checkSilent("unsubscribe-silent", line)
-		*h = hist{names: sets.New[string]()}
-	case !h.exists || nonce == "":
-		*h = hist{exists: true, names: sets.New(names...)}
-		if t == "CDS" && o.get("EDS").exists {
-			o.get("EDS").warm = true
-		}
-		o.checkAnswer("first-request-or-reconnect-answered-in-full", full, line)
-	case nonce != h.delivered:
-		// a nonce the client never received an answer with (stale, or of a response whose send failed)
-		o.checkSilent("stale-or-undelivered-nonce-silent", line)
+	case !e.respond:
+		o.checkSilent(e.clause, line)
+	case e.full:
+		o.checkAnswer(e.clause, []pcall{{t, names}}, line)
 	default:
-		added := sets.New(names...).Difference(h.names)
-		removed := h.names.Difference(sets.New(names...))
-		warm := h.warm
-		h.names, h.warm = sets.New(names...), false
-		switch {
-		case warm:
-			o.checkAnswer("warming-request-answered-in-full", full, line)
-		case len(added) == 0 && len(removed) == 0:
-			o.checkSilent("ack-silent", line)
-		case len(added) == 0 && namedType(t):
-			o.checkSilent("removed-only-silent", line)
-		case len(added) > 0:
-			o.checkAnswer("added-names-generated-exactly", []pcall{{t, sets.SortedList(added)}}, line)
-		default:
-			o.checkAnswer("wildcard-removal-answered-in-full", full, line)
-		}
+		o.checkAnswer(e.clause, []pcall{{t, e.asked}}, line)
 	}
-	o.noteDelivered()
-	o.checkTable(line)
+	o.after(line)
 }
 
 func (o *procOracle) pushAll(f []string, line string) {
@@ -781,80 +681,24 @@ func (o *procOracle) pushAll(f []string, line string) {
 		}
 	}
 	o.checkAnswer("push-generates-the-whole-subscription", want, line)
-	o.noteDelivered()
-	o.checkTable(line)
+	o.after(line)
 }
 
 func (o *procOracle) deltaReq(f []string, line string) {
-	p := o.pr.p
 	t := f[1]
-	sub, unsub, init := wire.DecList(f[2]), wire.DecList(f[3]), wire.DecList(f[4])
-	nonce := p.resolve(t, f[5])
-	isErr := f[6] != "-"
-	carries := len(sub) > 0 || len(unsub) > 0
-	h := o.get(t)
+	nonce := o.pr.p.resolve(t, f[5])
+	e := o.expectDelta(t, wire.DecList(f[2]), wire.DecList(f[3]), wire.DecList(f[4]), nonce, errMsgOf(f[6]))
 	if o.pr.apply(f) == "crash" {
 		o.fail("never-crashes", line)
 		return
 	}
-	p = o.pr.p
-	// the request's own subscription, as a set (what a fresh server would record)
-	subs := sets.New(sub...).InsertAll(init...).DeleteAll(unsub...)
-	star := subs.Contains("*")
-	subs.Delete("*")
-	unsubNamed := sets.New(unsub...).Delete("*")
-	narrowed := (len(subs) > 0 || len(unsubNamed) > 0) && !managedType(t)
-	respond := false
-	switch {
-	case !h.exists && isErr && !carries:
-		o.checkSilent("nack-silent", line)
-	case !h.exists:
-		*h = hist{exists: true, names: subs.Copy(), wild: star || len(sub) == 0}
-		if managedType(t) && h.wild {
-			h.names = sets.New[string]()
-		}
-		respond = true
-	case (isErr || (nonce != "" && nonce != h.delivered)) && !carries:
-		if isErr {
-			o.checkSilent("nack-silent", line)
-		} else {
-			o.checkSilent("stale-or-undelivered-nonce-silent", line)
-		}
-	default:
-		changed := false
-		if managedType(t) && h.wild {
-			changed = carries
-		} else {
-			cur := h.names.Copy()
-			for _, x := range append(append([]string{}, sub...), init...) {
-				if !cur.Contains(x) {
-					changed = true
-					cur.Insert(x)
-				}
-			}
-			for _, x := range unsub {
-				if cur.Contains(x) {
-					changed = true
-					cur.Delete(x)
-				}
-			}
-			cur.Delete("*")
-			h.names = cur
-		}
-		warm := h.warm
-		h.warm = false
-		if changed || warm {
-			respond = true
-		} else if carries {
-			o.checkSilent("re-subscription-of-known-names-silent", line)
-		} else {
-			o.checkSilent("ack-silent", line)
-		}
-	}
-	if respond {
-		asked := sets.SortedList(h.names)
-		if narrowed {
-			asked = sets.SortedList(subs)
+	p := o.pr.p
+	if !e.respond {
+		o.checkSilent(e.clause, line)
+	} else {
+		asked := e.asked
+		if e.full {
+			asked = sets.SortedList(o.get(t).names)
 		}
 		want := []pcall{{t, asked}}
 		firstFailed := o.genAnswers(t, true) && p.fail
@@ -862,14 +706,9 @@ func (o *procOracle) deltaReq(f []string, line string) {
 			// the server owes EDS after CDS (forceEDSPush): the whole EDS subscription
 			want = append(want, pcall{"EDS", sets.SortedList(o.get("EDS").names)})
 		}
-		clause := "subscription-change-generates-the-subscribed-names"
-		if !narrowed {
-			clause = "request-answered-in-full"
-		}
-		o.checkAnswer(clause, want, line)
+		o.checkAnswer(e.clause, want, line)
 	}
-	o.noteDelivered()
-	o.checkTable(line)
+	o.after(line)
 }
 
 func oracleProc(stream, in, outp string) {
@@ -890,7 +729,8 @@ func oracleProc(stream, in, outp string) {
 		if f[0] == "case" {
 			flush()
 			o.pr.apply(f)
-			o.h, o.verdict, o.idx, open = map[string]*hist{}, "", 0, true
+			o.reset()
+			open = true
 			continue
 		}
 		o.idx++
